@@ -715,11 +715,13 @@ class BlobStorageMixin:
         with self._lock:
             self.fshelper.getPathForOID(oid, create=True)
             targetname = self.fshelper.getBlobFilename(oid, serial)
-            rename_or_copy_blob(blobfilename, targetname)
 
+            # Register the file before putting it in place, so that an
+            # abort removes it even if renaming or copying fails half-way.
             # if oid already in there, something is really hosed.
             # The underlying storage should have complained anyway
             self.dirty_oids.append((oid, serial))
+            rename_or_copy_blob(blobfilename, targetname)
 
     def storeBlob(self, oid, oldserial, data, blobfilename, version,
                   transaction):
